@@ -699,6 +699,41 @@ func runParent(c *Check, tier string, root uint64) int {
 			fresh = append(fresh, vrec{v, rp, r.Seed, ""})
 		}
 	}
+	// Pinned cases: the committed example of every open finding of this property is
+	// executed on every run, so that the finding is reported (KNOWN-FINDING) whether or
+	// not this run's seeds happen to reach it - and so that one sees when it is gone.
+	for i := range known {
+		k := &known[i]
+		if k.Status != "open" || k.Property != c.ID || k.Replay == "" {
+			continue
+		}
+		path := filepath.Join(verifDir(), k.Replay)
+		cmd := exec.Command(os.Args[0], "-test.run", "^TestEntry$", "-test.timeout", "0", "-test.cpu", "1", "-test.count", "1")
+		cmd.Env = append(os.Environ(), "VERIF_ROLE=replay", "VERIF_CHECK="+c.ID, "VERIF_REPLAY="+path, "VERIF_DEBUG=")
+		outb, _ := cmd.CombinedOutput()
+		hit := false
+		for _, l := range strings.Split(string(outb), "\n") {
+			l = strings.TrimSpace(l)
+			var sig string
+			if strings.HasPrefix(l, "REPRODUCED property=") {
+				if j := strings.Index(l, "sig="); j >= 0 {
+					sig = strings.Fields(l[j+4:])[0]
+				}
+			} else if strings.HasPrefix(l, "other: ") {
+				sig = strings.Fields(l[7:])[0]
+			}
+			if sig != "" && matchKnown(known, Violation{Property: c.ID, Sig: sig}) == k {
+				hit = true
+			}
+		}
+		stats["pinned_known_finding_cases_run"]++
+		if hit {
+			knownHits[k.Property+"|"+k.Sig]++
+			knownWhat[k.Property+"|"+k.Sig] = k
+		} else {
+			fmt.Printf("NOTE: the committed example of the open finding %q (%s) no longer fails\n", k.Sig, k.Replay)
+		}
+	}
 	// worker deaths: re-run the seed alone in a fresh process to classify
 	for _, d := range deaths {
 		if c.DeathSig == nil {
